@@ -12,7 +12,18 @@ const CAPS: &[usize] = &[1, 2, 3, 5, 7, 16, 64, 511, 1000, 4095, 4096, 8191, 655
 
 fn benign_rule(rng: &mut Rng, pred: &Prediction) -> Rule {
     let any_input = || -> String { "*".into() };
-    match rng.below(9) {
+    match rng.below(10) {
+        9 => {
+            // the size the file claims to have is not the size it has (special files report 0;
+            // a file may grow between stat and read): the reader must read to end of file
+            let sel = if !pred.inputs.is_empty() && rng.chance(0.5) {
+                let i = rng.below(pred.inputs.len());
+                pred.inputs[i].named.clone()
+            } else {
+                "*".to_string()
+            };
+            Rule::new("statsize", &sel, 0, *rng.pick(&[0usize, 0, 1, 7, 100]))
+        }
         0 | 1 => {
             let sel = if !pred.inputs.is_empty() && rng.chance(0.3) {
                 let i = rng.below(pred.inputs.len());
@@ -79,6 +90,13 @@ pub fn add_plan(rng: &mut Rng, profile: &str, tree: &Tree, inv: &mut Inv, oracle
     for _ in 0..nb {
         let r = benign_rule(rng, &pred);
         inv.plan.push(r);
+    }
+    // A read-only world: every open for writing (O_WRONLY or O_RDWR) of anything in the world
+    // fails, as on a read-only mount or with files the user may read but not write. For the
+    // modes that must not write at all - check, stdout, stdin - this has to be transparent.
+    let non_writing = inv.is_check() || matches!(&inv.shape, Shape::Files { mode: Mode::Stdout, .. } | Shape::Stdin { .. });
+    if non_writing && rng.chance(0.25) {
+        inv.plan.push(Rule::new("openw", "*", 1, *rng.pick(&["EROFS", "EACCES", "EPERM"])));
     }
     if profile != "hard" {
         return;
